@@ -377,7 +377,9 @@ impl Bitstr {
     }
 
     pub fn detach(self) -> Bitstr {
-        if Rc::strong_count(&self.data) == 1 {
+        // the sole owner keeps its buffer only when the value starts at bit 0: the result must not depend on
+        // who else happens to hold the buffer (a copy is always re-based to bit 0)
+        if Rc::strong_count(&self.data) == 1 && self.start() == 0 {
             self
         } else if self.len() == 0 {
             Bitstr::new()
